@@ -26,6 +26,7 @@ typedef struct {
     atomic_ullong add_ret_stamp;    /* stamp right after add returned */
     atomic_ullong add_call_stamp;
     int profile;                    /* 0 instant 1 yield 2 short sleep 3 longer sleep */
+    int spawns;                     /* submits one follow-up task to its own pool while it runs */
 } task_t;
 
 static task_t T[MAXT];
@@ -48,7 +49,23 @@ static __thread vf_rng trng;
 static __thread int trole;                /* 0 unknown(worker) 1 submitter 2 freer 3 chaos */
 static atomic_int thread_ctr;
 
-static char cfg_txt[256];
+static char cfg_txt[320];
+static _Atomic(m_thpool_t *) g_pool;      /* pool under test, for tasks that submit follow-up work to their own pool */
+static int n_parents;                     /* tasks [0, n_parents) may spawn the child task n_parents + i */
+static atomic_ullong n_spawned, n_spawn_refused;
+/* fault injection: pthread_create fails with EAGAIN inside m_thpool_new / m_thpool_add (linked with --wrap=pthread_create) */
+static __thread int in_pool_call;
+static atomic_int create_fail_permille;
+static atomic_ullong n_create_failed;
+int __real_pthread_create(pthread_t *th, const pthread_attr_t *attr, void *(*fn)(void *), void *arg);
+int __wrap_pthread_create(pthread_t *th, const pthread_attr_t *attr, void *(*fn)(void *), void *arg) {
+    if (in_pool_call) {
+        int p = atomic_load(&create_fail_permille);
+        if (!trng.s) trng.s = g_seed * 7919 + 104729ULL * (unsigned)atomic_fetch_add(&thread_ctr, 1) + 1;
+        if (p && (int)vf_below(&trng, 1000) < p) { atomic_fetch_add(&n_create_failed, 1); return EAGAIN; }
+    }
+    return __real_pthread_create(th, attr, fn, arg);
+}
 
 static inline unsigned long long stamp(void) { return atomic_fetch_add(&clk, 1) + 1; }
 
@@ -94,6 +111,19 @@ static void *task_fn(void *arg) {
     while (g > m && !atomic_compare_exchange_weak(&gauge_max, &m, g));
     atomic_fetch_add(&t->exec, 1);
     atomic_fetch_add(&progress, 1);
+    if (t->spawns) {
+        /* follow-up work submitted by a task to its own pool: accepted (then it runs under the usual rules) or refused
+         * because the pool is shutting down - the pool is alive either way, this task has not completed yet */
+        task_t *c = &T[n_parents + (int)(t - T)];
+        m_thpool_t *pl = atomic_load(&g_pool);
+        atomic_store(&c->add_call_stamp, stamp());
+        in_pool_call = 1;
+        int r = pl ? m_thpool_add(pl, task_fn, c) : -1;
+        in_pool_call = 0;
+        atomic_store(&c->add_ret_stamp, stamp());
+        atomic_store(&c->accepted, r == 0);
+        if (r == 0) atomic_fetch_add(&n_spawned, 1); else atomic_fetch_add(&n_spawn_refused, 1);
+    }
     switch (t->profile) {
     case 1: sched_yield(); break;
     case 2: { struct timespec ts = { 0, 20000 }; nanosleep(&ts, NULL); break; }
@@ -112,11 +142,14 @@ static void *submitter(void *arg) {
     trole = 1;
     for (int i = s->first; i < s->first + s->count; i++) {
         atomic_store(&T[i].add_call_stamp, stamp());
+        in_pool_call = 1;
         int r = m_thpool_add(s->pool, task_fn, &T[i]);
+        in_pool_call = 0;
         atomic_store(&T[i].add_ret_stamp, stamp());
         atomic_store(&T[i].accepted, r == 0);
         atomic_fetch_add(&progress, 1);
-        if (r != 0) vf_fail("C06/add-refused", "m_thpool_add returned %d on a live pool | %s", r, cfg_txt);
+        /* (with thread creation failing a lazy pool may refuse the task: it then must never run, and the pool must stay usable) */
+        if (r != 0 && !(atomic_load(&create_fail_permille) && r == EAGAIN)) vf_fail("C06/add-refused", "m_thpool_add returned %d on a live pool | %s", r, cfg_txt);
         if (s->do_len && (i & 3) == 0) {
             ssize_t l = m_thpool_length(s->pool);
             if (l < 0) vf_fail("C06/length-error", "m_thpool_length returned %zd on a live pool | %s", l, cfg_txt);
@@ -178,7 +211,7 @@ static void *detector(void *arg) {
     return NULL;
 }
 
-static long long st_runs, st_frees_overlapping_tasks, st_discarded, st_tasks;
+static long long st_new_failed, st_runs, st_frees_overlapping_tasks, st_discarded, st_tasks;
 
 static void one_run(uint64_t seed, int flavour_mask) {
     vf_rng r = { seed };
@@ -196,12 +229,19 @@ static void one_run(uint64_t seed, int flavour_mask) {
     bool join_before_free = true;   /* documented contract: no concurrent use while freeing */
     int profmix = vf_below(&r, 5);
     bool nodelay = vf_chance(&r, 1, 5);
+    bool spawners = vf_chance(&r, 1, 3);
+    int fail_pm = vf_chance(&r, 1, 5) ? 100 + (int)vf_below(&r, 500) : 0;
+    if (spawners && ntasks > MAXT / 2 - 1) ntasks = MAXT / 2 - 1;
     for (int i = 0; i < 16; i++) atomic_store(&delay_prob[i], (nodelay || vf_chance(&r, 1, 2)) ? 0 : (int)vf_below(&r, 400));
-    snprintf(cfg_txt, sizeof(cfg_txt), "seed=%llu threads=%d flags=%s%s submitters=%d tasks=%d wait_all=%d clear=%d chaos=%d profmix=%d",
-             (unsigned long long)seed, threads, flags & M_THPOOL_LAZY ? "LAZY" : "eager", flags & M_THPOOL_DETACHED ? "+DETACHED" : "", nsub, ntasks, wait_all, use_clear, use_chaos, profmix);
+    snprintf(cfg_txt, sizeof(cfg_txt), "seed=%llu threads=%d flags=%s%s submitters=%d tasks=%d wait_all=%d clear=%d chaos=%d profmix=%d spawners=%d create_fail=%d/1000",
+             (unsigned long long)seed, threads, flags & M_THPOOL_LAZY ? "LAZY" : "eager", flags & M_THPOOL_DETACHED ? "+DETACHED" : "", nsub, ntasks, wait_all, use_clear, use_chaos, profmix, spawners, fail_pm);
 
     memset(T, 0, sizeof(T));
     for (int i = 0; i < ntasks; i++) T[i].profile = profmix == 4 ? (int)vf_below(&r, 4) : profmix == 3 ? (vf_chance(&r, 1, 6) ? 3 : 0) : profmix;
+    n_parents = ntasks;
+    if (spawners) for (int i = 0; i < ntasks; i++) { T[i].spawns = vf_chance(&r, 1, 2); T[ntasks + i].profile = (int)vf_below(&r, 3); }
+    const int nall = spawners ? 2 * ntasks : ntasks;
+    atomic_store(&create_fail_permille, fail_pm);
     atomic_store(&gauge, 0); atomic_store(&gauge_max, 0);
     atomic_store(&free_ret_stamp, 0); atomic_store(&pool_dead, 0); atomic_store(&touched_after_free, 0);
     atomic_store(&ev_hash, seed & 0xff);
@@ -211,9 +251,24 @@ static void one_run(uint64_t seed, int flavour_mask) {
     size_t live0 = vf_live();
 #endif
     phase = "new";
+    atomic_store(&obligations_open, 1);
+    in_pool_call = 1;
     m_thpool_t *pool = m_thpool_new(threads, flags);
-    if (!pool) { vf_fail("C06/new-null", "m_thpool_new returned NULL | %s", cfg_txt); return; }
+    in_pool_call = 0;
+    atomic_store(&obligations_open, 0);
+    if (!pool) {
+        if (!fail_pm) { vf_fail("C06/new-null", "m_thpool_new returned NULL | %s", cfg_txt); return; }
+        /* thread creation failed half-way: the pool is given up; nothing may be left behind (workers, memory) */
+        struct timespec gr0 = { 0, 2000000 }; nanosleep(&gr0, NULL);
+#ifndef VF_NO_LEDGER
+        if (vf_live() != live0) { vf_live_since(0, 4); vf_fail("C06/leak", "%zu allocations outstanding after a failed m_thpool_new | %s", vf_live() - live0, cfg_txt); }
+#endif
+        st_new_failed++; st_runs++;
+        atomic_store(&create_fail_permille, 0);
+        return;
+    }
     atomic_store(&cur_pool, (uintptr_t)pool);
+    atomic_store(&g_pool, pool);
 
     pthread_t chaos_th; atomic_store(&chaos_run, use_chaos); atomic_store(&chaos_parked, 0);
     if (use_chaos) pthread_create(&chaos_th, NULL, chaos, pool);
@@ -246,6 +301,8 @@ static void one_run(uint64_t seed, int flavour_mask) {
     int running_at_free = atomic_load(&gauge);
     int fr = m_thpool_free(&pool, wait_all);
     unsigned long long F = stamp();
+    atomic_store(&g_pool, NULL);
+    atomic_store(&create_fail_permille, 0);
     atomic_store(&free_ret_stamp, F);
     atomic_store(&pool_dead, 1);
     atomic_store(&obligations_open, 0);
@@ -255,9 +312,10 @@ static void one_run(uint64_t seed, int flavour_mask) {
 
     /* verdicts at the moment free returned */
     int snap_exec[MAXT]; unsigned long long snap_fin[MAXT], snap_start[MAXT];
-    for (int i = 0; i < ntasks; i++) { snap_exec[i] = atomic_load(&T[i].exec); snap_fin[i] = atomic_load(&T[i].finish_stamp); snap_start[i] = atomic_load(&T[i].start_stamp); }
-    for (int i = 0; i < ntasks; i++) {
+    for (int i = 0; i < nall; i++) { snap_exec[i] = atomic_load(&T[i].exec); snap_fin[i] = atomic_load(&T[i].finish_stamp); snap_start[i] = atomic_load(&T[i].start_stamp); }
+    for (int i = 0; i < nall; i++) {
         bool maybe_cleared = use_clear && atomic_load(&T[i].add_call_stamp) < clear_ret;
+        if (snap_exec[i] && !atomic_load(&T[i].accepted) && atomic_load(&T[i].add_ret_stamp)) vf_fail("C06/refused-task-ran", "task %d ran although m_thpool_add had refused it | %s", i, cfg_txt);
         (void)clear_call;
         if (snap_exec[i] > 1) vf_fail("C06/task-ran-twice", "task %d executed %d times | %s", i, snap_exec[i], cfg_txt);
         if (wait_all && atomic_load(&T[i].accepted) && !maybe_cleared) {
@@ -272,7 +330,7 @@ static void one_run(uint64_t seed, int flavour_mask) {
     struct timespec gr = { 0, (flags & M_THPOOL_DETACHED) ? 3000000 : 300000 };
     nanosleep(&gr, NULL);
     int discarded = 0;
-    for (int i = 0; i < ntasks; i++) {
+    for (int i = 0; i < nall; i++) {
         unsigned long long ss = atomic_load(&T[i].start_stamp);
         if (ss > F) vf_fail("C06/task-started-after-free", "task %d started (stamp %llu) after free returned (stamp %llu) | %s", i, ss, F, cfg_txt);
         if (atomic_load(&T[i].exec) > 1) vf_fail("C06/task-ran-twice", "task %d executed %d times | %s", i, atomic_load(&T[i].exec), cfg_txt);
@@ -285,7 +343,7 @@ static void one_run(uint64_t seed, int flavour_mask) {
         if (vf_live() != live0) { vf_live_since(0, 4); vf_fail("C06/leak", "%zu allocations outstanding after m_thpool_free | %s", vf_live() - live0, cfg_txt); }
     }
 #endif
-    st_runs++; st_tasks += ntasks;
+    st_runs++; st_tasks += nall;
     vf_sig(vf_mix(atomic_load(&ev_hash), threads * 64 + flav * 16 + nsub));
 }
 
@@ -313,6 +371,10 @@ int main(int argc, char **argv) {
     vf_stat("worker_threads_created", (long long)atomic_load(&n_lazy_created));
     vf_stat("frees_overlapping_running_tasks", st_frees_overlapping_tasks);
     vf_stat("tasks_discarded_or_cleared", st_discarded);
+    vf_stat("follow_up_tasks_accepted_from_inside_tasks", (long long)atomic_load(&n_spawned));
+    vf_stat("follow_up_tasks_refused_pool_shutting_down", (long long)atomic_load(&n_spawn_refused));
+    vf_stat("injected_thread_creation_failures", (long long)atomic_load(&n_create_failed));
+    vf_stat("pool_creations_failed_by_injection", st_new_failed);
     fflush(stdout);
     return vf_fail_count ? 1 : 0;
 }
